@@ -426,6 +426,21 @@ pub fn shrink(check: &dyn Check, mut data: Vec<u64>, mut fail: Fail, known: &Kno
     (data, fail)
 }
 
+/// little-endian bytes -> entropy words, padded with zeros to the requested length
+pub fn words(data: &[u8], len: usize) -> Vec<u64> {
+    let mut w: Vec<u64> = data
+        .chunks(8)
+        .take(len)
+        .map(|c| {
+            let mut b = [0u8; 8];
+            b[..c.len()].copy_from_slice(c);
+            u64::from_le_bytes(b)
+        })
+        .collect();
+    w.resize(len, 0);
+    w
+}
+
 pub fn splitmix(mut z: u64) -> u64 {
     z = z.wrapping_add(0x9E3779B97F4A7C15);
     z = (z ^ (z >> 30)).wrapping_mul(0xBF58476D1CE4E5B9);
@@ -657,11 +672,19 @@ pub fn replay(check: &dyn Check, file: &Value) -> Result<(), Fail> {
     if let Some(s) = file["seed"].as_u64() {
         SEED.store(s, std::sync::atomic::Ordering::Relaxed);
     }
-    let mut obs = Obs::default();
+    let mut obs = Obs { want_desc: true, ..Obs::default() };
+    let r = replay_inner(check, file, tier, &mut obs);
+    if let Some(d) = &obs.desc {
+        println!("decoded case: {}", serde_json::to_string(d).unwrap_or_default());
+    }
+    r
+}
+
+fn replay_inner(check: &dyn Check, file: &Value, tier: Tier, obs: &mut Obs) -> Result<(), Fail> {
     match file["kind"].as_str() {
         Some("enum") => {
             let i = file["index"].as_u64().ok_or_else(|| Fail::new("bad-replay", "no index"))?;
-            guarded_enum(check, i, tier, &mut obs)
+            guarded_enum(check, i, tier, obs)
         }
         _ => {
             let data: Vec<u64> = file["entropy"]
@@ -670,7 +693,7 @@ pub fn replay(check: &dyn Check, file: &Value) -> Result<(), Fail> {
                 .iter()
                 .map(|v| v.as_u64().unwrap_or(0))
                 .collect();
-            guarded_case(check, &data, &mut obs)
+            guarded_case(check, &data, obs)
         }
     }
 }
